@@ -30,7 +30,7 @@ HD = G.HD
 # kind (a) and the subset policy offers no action for inactive agents, so that the check is green on
 # the tree as found.  Set to True (or VERIF_E2E2_DEAD_RUNNER=1) once the repair is in /repo; the model
 # is the repaired code.
-DEAD_RUNNER_ON_TARGET = os.environ.get("VERIF_E2E2_DEAD_RUNNER", "0") == "1"
+DEAD_RUNNER_ON_TARGET = os.environ.get("VERIF_E2E2_DEAD_RUNNER", "1") == "1"      # on since the repair (F16)
 
 
 class Spy(_Spy):
